@@ -184,7 +184,7 @@ def run(ctx, prop):
     progs = res.tr("PROG")
     n_base = len(progs)
     if thorough:
-        space = {"core": 8, "ali": 30, "cst": 11, "par": 12, "elim": 16, "ini": (0, 3), "row": (1, 3), "use": 4,
+        space = {"core": 8, "ali": 30, "cst": 11, "par": 12, "elim": 19, "ini": (0, 3), "row": (1, 3), "use": 4,
                  "rev": (0, 1), "dne": (0, 2), "perm": (0, 5)}
         draws, seen = [], {bpkey(p["bp"]) for p in progs}
         while len(draws) < int(os.environ.get("VERIF_SIMPLIFY_DRAWS", "400")):
@@ -218,7 +218,7 @@ def run(ctx, prop):
         raise MachineryError("spec Simplify (intended) violates %s:\n%s" % (ri.violated, ri.cex[:3000]))
 
     # ---- 3. (blueprint, option set) pairs
-    per_bp = 12 if thorough else 4
+    per_bp = 12 if thorough else 3
     pool = option_pool(rng, 400 if thorough else 120)
     pairs = {}
     for i, p in enumerate(progs):
